@@ -10,6 +10,7 @@ import (
 	"fmt"
 	"io"
 	"strings"
+	"time"
 
 	"github.com/tink-crypto/tink-go/v2/insecurecleartextkeyset"
 	"github.com/tink-crypto/tink-go/v2/internal/verifharness/hlib"
@@ -455,6 +456,10 @@ func (e *engine) primOps(src primSrc, rng *hlib.Rng) {
 			e.skip(src.api, "no operations for class "+src.class)
 		}
 	}
+	// output stability under history (history.go)
+	t0 := time.Now()
+	e.history(src, rng)
+	e.cost["(history)"] += time.Since(t0).Seconds()
 }
 
 // streamOps: NewEncryptingWriter(aad), Write(p), NewDecryptingReader(aad), Read(p).
